@@ -27,7 +27,7 @@ from harness import core, detsched, fastsched, shims, tlc, tracecheck
 FOCUS_EL = ("reactivex/scheduler/eventloopscheduler.py", "reactivex/scheduler/scheduleditem.py")
 FOCUS_ALL = FOCUS_EL + ("reactivex/scheduler/newthreadscheduler.py", "reactivex/scheduler/threadpoolscheduler.py",
                         "reactivex/scheduler/timeoutscheduler.py")
-EL_INVS = ["TypeOK", "Serial", "OneThread", "Fifo", "DueOrder", "NotEarly", "CancelledNeverRuns",
+EL_INVS = ["TypeOK", "Serial", "OneThread", "Fifo", "DueOrder", "CrossOrderTI", "CrossOrderIT", "NotEarly", "CancelledNeverRuns",
            "NoRunAfterDisposeReturned", "RefusedOnlyDisposed", "ThreadForPending"]
 EL_TRACE_CONSTS = dict(Clients={0, 1, 2, 3}, Loops=set(range(11, 20)), Items=set(range(1, 7)), ExitModes={True, False},
                        MaxT=2000000000, MaxCalls=0, RelD={0}, AbsT={0}, InnerCalls=False)
